@@ -491,9 +491,29 @@ def main(argv):
 
     # a failing obligation in a function whose PROOF HINTS (R10/R11 annotations) could not be placed is not evidence
     # of a violation: the proof may fail only for lack of the hint -> undecided
+    _wcache = {}
+
+    def reproduced_on_real_crate(o):
+        """the property's concrete scenarios REPRODUCE a misbehaviour on the real crate (only on /repo itself): a replayed failing
+        input is definitive even where the failed proof alone would only mean `undecided`"""
+        if extract.REPO != "/repo":
+            return None
+        if "w" not in _wcache:
+            try:
+                import witness as wmod
+                _wcache["w"] = wmod.find(prop, o, tier) if prop in wmod.FINDERS else None
+            except Exception:
+                _wcache["w"] = None
+        w = _wcache["w"]
+        return w if (w and w.get("found")) else None
+
     for o in all_obs:
         f = o.get("fn")
         if o["failed"] and f is not None and f.get("hint_lost"):
+            w = reproduced_on_real_crate(o)
+            if w:
+                o["witness"] = w
+                continue
             undecided.append(f"hint-lost unit={o.get('unit')}: {o['id']} fails, but proof annotations of {f['name']} could not be placed ({'; '.join(f['hint_lost'])[:200]})")
     # a failing obligation in a function that CALLS a helper which was auto-included without contract (its result is
     # unconstrained for the caller) is not evidence of a violation either: "needs contract", not "bug" -> undecided
@@ -507,15 +527,8 @@ def main(argv):
         if used:
             # ... unless the property's concrete scenarios REPRODUCE a misbehaviour on the real crate: a replayed failing
             # input is definitive, whatever the helper's missing contract (only possible on /repo itself, not on a scratch copy)
-            w = None
-            if extract.REPO == "/repo":
-                try:
-                    import witness as wmod
-                    if prop in wmod.FINDERS:
-                        w = wmod.find(prop, o, tier)
-                except Exception as e:
-                    w = None
-            if w and w.get("found"):
+            w = reproduced_on_real_crate(o)
+            if w:
                 o["witness"] = w
                 continue
             undecided.append(f"helper-without-contract unit={o.get('unit')}: {o['id']} fails, but {f['name']} calls {', '.join(sorted(set(used)))} which is not under contract (auto-included, result unconstrained)")
